@@ -237,9 +237,10 @@ def compare_blocks(exp, lines):
     return bad
 
 
-def builder_method_replayer(ctx, world, method, g, info, h0, arg_vals, kw_ref, exits, extra=None):
+def builder_method_replayer(ctx, world, method, g, info, h0, arg_vals, kw_ref, exits, extra=None, prepare=None):
     def rp(model, obl, cover):
         b, cap = realize_builder(world, model, h0, g, info)
+        if prepare is not None: prepare(b, model)
         args = [conc(world, model, a, h0) for a in arg_vals]
         kwargs = conc(world, model, kw_ref, h0) if kw_ref is not None else {}
         pre = observe_builder(b)
